@@ -117,6 +117,9 @@ pub struct Space {
     pub buf: Option<bool>,
     pub force_unsafe: Option<bool>,
     pub bytes_mode_share: u64, // out of 100
+    /// share (out of 100) of cases whose mutator objects are created with the opposite unsafe
+    /// flag from the generator's own (two independent knobs of the public API)
+    pub flip_share: u64,
 }
 
 impl Space {
@@ -129,11 +132,13 @@ impl Space {
             buf: None,
             force_unsafe: None,
             bytes_mode_share: 50,
+            flip_share: 0,
         }
     }
     pub fn full() -> Self {
         Space {
             allow_unsafe: true,
+            flip_share: 10,
             ..Space::safe()
         }
     }
@@ -198,7 +203,9 @@ pub fn matrix_case(i: usize, seed: u64, sp: &Space) -> Config {
         raw_rate: false,
         // a quarter of the cases run on a generator that already produced another pickle
         warmup: if rng.below(4) == 0 { Some(rng.next() >> 8) } else { None },
-        order: rng.below(3) as u8,
+        // builder-call order (0..2) / Generator::default() construction (3, 4); bit 16 = mutator
+        // objects created with the opposite unsafe flag
+        order: rng.below(5) as u8 | if rng.below(100) < sp.flip_share { 16 } else { 0 },
         bufsize: match rng.below(12) {
             0 => Some(256),
             1 => Some(1024),
@@ -666,6 +673,45 @@ pub fn greedy_policy(x: u8, y: u8) -> impl Fn(usize, &[u8]) -> usize {
         }
     }
 }
+
+/// step d wants ops[d % len]; if that is not offered, the first offered one of the cycle, else
+/// the first offered opcode
+pub fn cycle_policy(ops: &'static [u8]) -> impl Fn(usize, &[u8]) -> usize {
+    move |d, valid| {
+        let k = ops.len();
+        for j in 0..k {
+            let want = ops[(d + j) % k];
+            if let Some(i) = valid.iter().position(|&o| o == want) {
+                return i;
+            }
+        }
+        0
+    }
+}
+
+/// opcode cycles for the deep-state block (groups of one item, self-insertions, memo churn..)
+pub const DEEP_CYCLES: [&[u8]; 20] = [
+    b"(N",
+    b"((Nt",
+    b"]2a",
+    b"}22s",
+    b"N\x94",
+    b"Nq",
+    b"Np",
+    b"(NNd",
+    b"(Nl",
+    b"\x8f(N\x90",
+    b"NN\x86",
+    b"N0",
+    b"]Na0",
+    b"](NNe",
+    b"}(NNu",
+    b"N\x85\x94",
+    b"]q2a",
+    b"(]2a",
+    b"N2\x862\x86",
+    b"K2\x87",
+];
 
 /// (X, Y) pairs for the deep-state block: every opcode of the table greedily, backed by the
 /// openers that make it applicable
